@@ -1163,6 +1163,7 @@ type stWorker struct {
 }
 
 func stage(fd *ast.FuncDecl) string {
+	expandHelpers(currentFile, fd)
 	fn := &stFn{fd: fd, name: fd.Name.Name, chans: map[string]*stChan{}, boundErr: map[string]bool{}, errVars: map[string]bool{},
 		boolVars: map[string]bool{}, valVars: map[string]string{}, closNames: map[string]bool{}, tyMap: map[string]string{}}
 	tps := typeParams(fd)
@@ -1300,6 +1301,13 @@ func stage(fd *ast.FuncDecl) string {
 					}
 				}
 				if lit, ok := x.Rhs[0].(*ast.FuncLit); ok {
+					// a closure choosing a channel, shared by the workers (it only reads its arguments and the channels)
+					if lit.Type.Results != nil && len(lit.Type.Results.List) == 1 {
+						if _, isChan, _ := chanElemOfType(lit.Type.Results.List[0].Type); isChan {
+							fn.closure(nm, lit)
+							continue
+						}
+					}
 					w := &stWorker{body: lit.Body}
 					if lit.Type.Params != nil && len(lit.Type.Params.List) == 1 && len(lit.Type.Params.List[0].Names) == 1 {
 						if _, isChan, _ := chanElemOfType(lit.Type.Params.List[0].Type); isChan {
@@ -1328,7 +1336,24 @@ func stage(fd *ast.FuncDecl) string {
 			// for i := 1; i <= par; i++ { go w() }
 			if worker == nil && len(x.Body.List) == 1 {
 				if g, ok := x.Body.List[0].(*ast.GoStmt); ok {
+					var w *stWorker
 					if h, ok := g.Call.Fun.(*ast.Ident); ok && closures[h.Name] != nil && len(g.Call.Args) == 0 {
+						w = closures[h.Name]
+					}
+					// go func() { … }(): the worker written in place (the loop variable is not visible to it: no parameter)
+					if lit, ok := g.Call.Fun.(*ast.FuncLit); ok && len(g.Call.Args) == 0 && (lit.Type.Params == nil || len(lit.Type.Params.List) == 0) {
+						usesI := false
+						ast.Inspect(lit.Body, func(n ast.Node) bool {
+							if i, ok := n.(*ast.Ident); ok && i.Name == "i" {
+								usesI = true
+							}
+							return true
+						})
+						if !usesI {
+							w = &stWorker{body: lit.Body}
+						}
+					}
+					if w != nil {
 						hd := src(x.Init) + "; " + src(x.Cond) + "; " + src(x.Post)
 						if hd != "i := 1; i <= par; i++" && hd != "i := 0; i < par; i++" {
 							sfail(st, "worker start loop %q does not start exactly par workers", hd)
@@ -1336,7 +1361,7 @@ func stage(fd *ast.FuncDecl) string {
 						if addArg != "par" {
 							sfail(st, "wg.Add(%s) does not match the par workers started", addArg)
 						}
-						worker = closures[h.Name]
+						worker = w
 						worker.workers = "par"
 						continue
 					}
